@@ -45,6 +45,7 @@ pub fn check_cleanup(text: &str) -> Result<Vec<CV>, String> {
         Loaded::Err(e) => return Err(format!("machinery: generated module does not load: {e}\n{text}")),
         Loaded::Panic(p) => return Err(format!("panic: {p}")),
     };
+    let second_before = f.project.module.iter().nth(1).map(|m| format!("{m:?}"));
     let before = module_snapshot(&f)?;
     let dangling_before: BTreeSet<(Ns, String)> = before.dangling().into_iter().map(|(_, e)| (e.ns, e.target)).collect();
     let check_before = f.check().len();
@@ -52,6 +53,11 @@ pub fn check_cleanup(text: &str) -> Result<Vec<CV>, String> {
     let after = module_snapshot(&f)?;
     let text1 = f.write_to_string();
     let mut out = Vec::new();
+    if let Some(sb) = &second_before {
+        if f.project.module.iter().nth(1).map(|m| format!("{m:?}")).as_ref() != Some(sb) {
+            out.push(CV { oracle: "second-module-changed", detail: "module".into(), what: "cleanup changed the second module, in which every helper is in use".into() });
+        }
+    }
     // the name indexes of the lists cleanup has edited still answer for the remaining elements
     if let Err(w) = crate::c08::index_coherent(&f) {
         out.push(CV { oracle: "name-index-incoherent-after-cleanup", detail: w.split(':').next().unwrap_or("").to_string(), what: w });
@@ -299,6 +305,33 @@ pub fn build(g: &Grammar, thorough: bool) -> Vec<Case10> {
             e("CHARACTERISTIC", "C", "c1").set("conversion", "CM1").set("deposit", "RL1").kid(ks("AXIS_DESCR", &[("conversion", "CM2")])).kid(kl("FUNCTION_LIST", &["F1"])),
         ];
         out.push(Case10 { label: "one referrer per kind with every usage position populated by a different helper".into(), family: "usage-pairs".into(), text: file_text(g, "m", &elems) });
+    }
+    // ---- F: a second module behind the module under test. It uses the same names, every helper in it is in use, and one name
+    // that is unused in many first modules (X) is used there: nothing computed for one module may decide about another, and the
+    // second module has to come out unchanged
+    {
+        let other_elems = vec![
+            e("MEASUREMENT", "M", "c1").set("conversion", "X"),
+            e("COMPU_METHOD", "X", "c1").kid(ks("REF_UNIT", &[("unit", "U0")])),
+            e("UNIT", "U0", "c1"),
+            e("GROUP", "G0", "c1").kid(k("ROOT")).kid(kl("REF_MEASUREMENT", &["M"])).kid(kl("FUNCTION_LIST", &["F0"])),
+            e("FUNCTION", "F0", "c1").kid(kl("IN_MEASUREMENT", &["M"])),
+            e("RECORD_LAYOUT", "RL", "c1"),
+            e("AXIS_PTS", "AX", "c1").set("deposit_record", "RL"),
+        ];
+        let other_text = file_text(g, "other", &other_elems);
+        let a = other_text.find("/begin MODULE").unwrap_or(0);
+        let b = other_text.rfind("/end MODULE").map(|x| x + "/end MODULE".len()).unwrap_or(other_text.len());
+        let other = other_text[a..b].to_string();
+        let n0 = out.len();
+        let step = if thorough { 1 } else { 3 };
+        for i in (0..n0).step_by(step) {
+            let t = &out[i].text;
+            let Some(pos) = t.rfind("/end MODULE") else { continue };
+            let pos = pos + "/end MODULE".len();
+            let text = format!("{}\n  {}{}", &t[..pos], other, &t[pos..]);
+            out.push(Case10 { label: format!("{} [second module behind]", out[i].label), family: format!("{}+second-module", out[i].family), text });
+        }
     }
     out
 }
